@@ -196,6 +196,8 @@ func runC11(c *Check) {
 	}
 	c.ruleRemoveOnlyWhenEmpty("R7")
 	c.ruleWriteOnlyWhatSerialized("R8")
+	c.ruleNoWholeRecordOverwrite("R9")
+	c.ruleStoredFlagsOnlyRise("R10")
 }
 
 // relax marks reader loops that run until the input is exhausted as matching an uncounted writer
